@@ -740,15 +740,27 @@ class LoopAnalysis(Analysis):
         options = (('is_m', (WEAK_MWP, POLY_MWP)),
                    ('is_w', (POLY_MWP,)),
                    ('is_p', ()))
+        # a derivation bounds a variable only if it also succeeds for every
+        # variable that flows into it
+        col = relation.variables.index(v_name)
+        sources = [u for i, u in enumerate(relation.variables)
+                   if i != col and any(
+                       m.scalar in (UNIT_MWP, WEAK_MWP, POLY_MWP)
+                       for m in relation.matrix[i][col].list)]
+        valid = Choices.choice_reduce(*relation.var_eval(
+            Analysis.DOMAIN, index, sources).values()) if sources else None
         # find the "least bound-choice": 0/m < has w < has p
         for attr, scalars in options:
             choices = relation.var_eval(
                 Analysis.DOMAIN, index, v_name, *scalars)
+            if valid is not None and not choices.infinite:
+                choices = Choices.intersection(choices, valid)
             if not choices.infinite:
                 setattr(result, attr, True)
                 result.choices = choices
                 break
-        assert result.choices
+        if not result.choices:
+            return result
         simple_mat = relation.apply_choice(*result.choices.first)
         result.bound = Bound().calculate(simple_mat).bound_dict[v_name]
         return result
